@@ -47,7 +47,7 @@ DimOf(ww, e) ==
   THEN FindUnusedStr(IF e.a = "SelectIndexes" THEN "index" ELSE "point", Range1(ww.alldims))
   ELSE e.dim
 
-ClauseNames == {"Completed", "PolyOrder", "CentreOrder", "RavelOrder", "SelectOrder", "SelectAbsent", "HitsArePositions",
+ClauseNames == {"Completed", "PolyOrder", "CentreOrder", "RavelOrder", "SelectOrder", "SelectAbsent", "HitsArePositions", "SpatialIndexItems",
                 "IffIntersects", "LowestIndex", "Coherent", "NeverAHole", "SelectPointMatches",
                 "IndexesValues", "IndexesAbsent", "DtypeKept", "PointsError", "PointsDrop", "PointsFill", "FrameColumns",
                 "ExportCells", "ExportIndexes",
@@ -93,6 +93,16 @@ Clause(name, ww, e) ==
          (Is(e, "Query") /\ clean) =>
             /\ {e.obs.ok[k] : k \in 1..Len(e.obs.ok)} = Hits(<<e.p[1], e.p[2]>>)
             /\ Len(e.obs.ok) = Cardinality(Hits(<<e.p[1], e.p[2]>>))
+    [] name = "SpatialIndexItems" ->
+         \* the deprecated spatial_index: the refined hits are the same positions, each item carrying that position's
+         \* native index and polygon
+         (Is(e, "SpatialIndex") /\ clean) =>
+            /\ {e.obs.ok[k].linear : k \in 1..Len(e.obs.ok)} = Hits(<<e.p[1], e.p[2]>>)
+            /\ Len(e.obs.ok) = Cardinality(Hits(<<e.p[1], e.p[2]>>))
+            /\ \A k \in 1..Len(e.obs.ok) :
+                 LinearInRange(ww, "face", e.obs.ok[k].linear) =>
+                    /\ e.obs.ok[k].native = WindIndex(ww, "face", e.obs.ok[k].linear)
+                    /\ SameRing(e.obs.ok[k].poly, polys[e.obs.ok[k].linear + 1])
     \* ------------------------------------------------------------ C04
     [] name = "IffIntersects" ->
          (Is(e, "Lookup") /\ clean) => (e.obs.ok.hit <=> Hits(<<e.p[1], e.p[2]>>) # {})
